@@ -185,6 +185,23 @@ func fuzzSdp(f fuzzer) {
 	f.Add((&Sdp{DropLine: -1, DupLine: -1, Tracks: []SdpTrack{{Media: "audio", PT: 97, Enc: "mpeg4-generic", Clock: 0, Chan: 2, Fmtp: "mode=AAC-lbr;sizelength=6;indexlength=2; config=f910", Control: "a"},
 		{Media: "video", PT: 97, Enc: "H264", Clock: 1, Fmtp: "sprop-parameter-sets=Zw==,aA==", Control: "v"}}}).Bytes(),
 		frames(rtp(97, 1, "00100020aabbccdd"), sr))
+	// static payload types with and without rtpmap, names lal does not know, payload type / name mismatches, PT > 127
+	for _, tr := range []SdpTrack{
+		{Media: "audio", PT: 14, NoRtpmap: true, Control: "streamid=0"},
+		{Media: "audio", PT: 14, Enc: "MPA", Clock: 90000, Control: "streamid=0"},
+		{Media: "audio", PT: 3, Enc: "GSM", Clock: 8000, Chan: 1, Control: "streamid=0"},
+		{Media: "audio", PT: 9, Enc: "G722", Clock: 8000, Control: "streamid=0"},
+		{Media: "audio", PT: 0, Enc: "H264", Clock: 90000, Control: "streamid=0"},
+		{Media: "audio", PT: 96, Enc: "X-UNKNOWN", Clock: 1, Control: "streamid=0"},
+		{Media: "audio", PT: 200, Enc: "PCMA", Clock: 8000, Control: "streamid=0"},
+		{Media: "video", PT: 26, NoRtpmap: true, Control: "streamid=0"},
+		{Media: "video", PT: 32, Enc: "MPV", Clock: 90000, Control: "streamid=0"},
+		{Media: "video", PT: 33, Enc: "MP2T", Clock: 90000, Control: "streamid=0"},
+		{Media: "video", PT: 96, Enc: "PCMA", Clock: 8000, Control: "streamid=0"},
+		{Media: "video", PT: 99999, Enc: "H264", Clock: 90000, Control: "streamid=0"},
+	} {
+		f.Add((&Sdp{DropLine: -1, DupLine: -1, Tracks: []SdpTrack{tr}}).Bytes(), frames(rtp(tr.PT&0x7f, 1, "d5d5d5d5"), sr))
+	}
 	f.Fuzz(func(t *testing.T, data []byte, pkts []byte) {
 		if len(data) > 1<<16 || len(pkts) > 1<<15 {
 			return
